@@ -32,12 +32,13 @@ def run(ck):
     ck.rule("C14.R2", "later record calls merge into the stored object (owned keys); replaced only on success", floor=6)
     ck.rule("C14.R6", "what the JSON formatter is handed is what was written: every field form of the macros pairs name, position and %/? sigil with the value (as C10.R2)", floor=300)
     ck.rule("C14.R5", "each JSON record reaches the writer whole: one write_all of the complete buffer, into a buffer cleared first (as C13.R1/R2)", floor=10)
-    ck.rule("C14.R4", "a later record updates the span's stored fields under one write lock (read-merge-store is atomic)", floor=1)
+    ck.rule("C14.R4", "a later record updates the span's stored fields under one write lock (read-merge-store is atomic); fields are stored once, merged when present", floor=3)
     ck.rule("C14.R3", "span list is root to leaf", floor=1)
     r1(ck, F)
     r2(ck, F)
     r3(ck, F)
     r4(ck, F)
+    r4b(ck, F)
     from rules import C13
     C13.r1_r2(ck, F, r1id="C14.R5", r2id="C14.R5")
     from rules import C10
@@ -286,3 +287,40 @@ def r4(ck, F):
         ck.ok("C14.R4", key, fn=b.path)
     else:
         ck.bad("C14.R4", key, where(b.raw["sp"]), why, fn=b.path)
+
+
+def r4b(ck, F):
+    """Polarity of the two "is there something stored already" tests: fmt on_new_span formats and inserts the span's fields
+    only when none are stored yet (a second insert of the same extension type panics; skipping the first loses the
+    fields), and JsonFields::add_fields re-parses the stored text only when it is non-empty."""
+    from rulekit.query import guards_of
+    b = F.impl_method("tracing_subscriber::subscribe::Subscribe", "tracing_subscriber::fmt::fmt_subscriber::Subscriber", "on_new_span")
+    if ck.anchor("C14.R4", "fmt Subscriber::on_new_span", b):
+        key = "fmt on_new_span stores the formatted fields exactly when none are stored yet"
+        ff = [bb for bb, t in b.calls() if t["callee"].get("method") == "format_fields"]
+        ok = len(ff) == 1
+        why = "%d format_fields calls" % len(ff)
+        if ok:
+            g, _ = guards_of(b, ff[0])
+            absent = [v not in (0, False) for t, v in g if t.startswith("is_none(get_mut(")] + [v in (0, False) for t, v in g if t.startswith("is_some(get_mut(")]
+            if not absent or not all(absent):
+                ok, why = False, "format_fields runs under %s" % [(t[:40], v) for t, v in g]
+        if ok:
+            ck.ok("C14.R4", key, fn=b.path)
+        else:
+            ck.bad("C14.R4", key, where(b.raw["sp"]), why + ": the span's fields are formatted only when some are already stored (and then inserted twice) / never stored", fn=b.path)
+    a = F.impl_method("tracing_subscriber::fmt::format::FormatFields", J + "JsonFields", "add_fields")
+    if ck.anchor("C14.R4", "JsonFields::add_fields", a):
+        key = "add_fields re-parses the stored text exactly when there is some"
+        ps = [bb for bb, t in a.calls() if (t["callee"].get("path") or "").startswith("serde_json::de::from_str")]
+        ok = len(ps) == 1
+        why = "%d from_str calls" % len(ps)
+        if ok:
+            g, _ = guards_of(a, ps[0])
+            emp = [v for t, v in g if t.startswith("is_empty(")]
+            if not emp or any(v not in (0, False) for v in emp):
+                ok, why = False, "from_str runs under %s" % [(t[:40], v) for t, v in g]
+        if ok:
+            ck.ok("C14.R4", key, fn=a.path)
+        else:
+            ck.bad("C14.R4", key, where(a.raw["sp"]), why + ": the merge path is taken for an empty store (parse error, fields lost) and skipped for a non-empty one (earlier fields overwritten)", fn=a.path)
